@@ -131,6 +131,17 @@ PLANS = {
         ],
         trusted_base=['pyvc (this repository)', 'z3 5.1'],
     ),
+    'C16': dict(
+        specs=[], contracts=[], targets=[], bounded=['bounded.c16_linear.run'], level='exploration',
+        native_per_fn={'quick': 0, 'thorough': 0},
+        rule='see coverage.bounded[0].rule',
+        assumptions=[
+            "bounded stand-in only (no function of prover/omega.py or prover/simplex.py is under contract yet): "
+            "run-time contract on solve_matrix and Simplex over enumerated / random systems, oracle z3 (LIA/LRA) and "
+            "own evaluation of witnesses; calls that raise are counted as 'no answer', not as wrong answers",
+            "OmegaHOL / SimplexHOLWrapper proof construction is exercised only through solve_matrix's verdict",
+        ],
+    ),
     'C20': dict(
         models=['models.imperative'], specs=['spec.imp'], contracts=['contracts.imperative'],
         targets=['imperative.expr.Var.subst', 'imperative.expr.ArrayElt.subst', 'imperative.expr.Field.subst',
